@@ -198,6 +198,31 @@ pub(super) fn optimize(
       type_: INT_32_TYPE,
     }),
   };
+  // Verification intervention (off by default): rebuild the guard with the operator that the
+  // original guard and the sign of the multiplier call for, to attribute a behaviour change to
+  // the hard-coded `<` above.
+  #[cfg(samlang_verif)]
+  let new_basic_induction_variable_with_loop_guard =
+    if crate::verif::loop_guard_operator_corrected() {
+      let guard_operator =
+        optimizable_while_loop.basic_induction_variable_with_loop_guard.guard_operator;
+      let corrected = match &only_relevant_induction_loop_variables.multiplier {
+        PotentialLoopInvariantExpression::Int(0) => return None,
+        PotentialLoopInvariantExpression::Int(m) if *m < 0 => match guard_operator {
+          GuardOperator::LT => GuardOperator::GT,
+          GuardOperator::LE => GuardOperator::GE,
+          GuardOperator::GT => GuardOperator::LT,
+          GuardOperator::GE => GuardOperator::LE,
+        },
+        _ => guard_operator,
+      };
+      BasicInductionVariableWithLoopGuard {
+        guard_operator: corrected,
+        ..new_basic_induction_variable_with_loop_guard
+      }
+    } else {
+      new_basic_induction_variable_with_loop_guard
+    };
   let new_derived_induction_variables = optimizable_while_loop
     .derived_induction_variables
     .iter()
